@@ -156,3 +156,56 @@ def perturb(rng, spec: LangSpec, t, up: bool, p=0.5, wrong=0.1):
             d = not d
         new.append(perturb(rng, spec, a, d, p, wrong))
     return (o, tuple(new))
+
+
+def build_language(spec: LangSpec, ops, canon=None, include_top=False, include_bottom=False,
+        operators=None, aliases=None, namespace=None):
+    """A real transforge.Language over the operators `ops` (built by spec.build()).
+    canon: list of type data (tuples) or None for the default canon."""
+    from transforge.lang import Language
+    from transforge import type as T
+    scope = {spec.name(i): ops[i] for i in range(5, len(spec.decls))}
+    if operators:
+        scope.update(operators)
+    if aliases:
+        scope.update(aliases)
+    kw = {}
+    if namespace is not None:
+        kw["namespace"] = namespace
+    if canon is None and not include_top and not include_bottom:
+        return Language(scope=scope, **kw)
+    c = []
+    if include_top:
+        c.append(T.Top)
+    if include_bottom:
+        c.append(T.Bottom)
+    for t in canon or []:
+        if not t[1]:
+            c.append(ops[t[0]])
+        else:
+            c.append(ty_py(t, ops))
+    return Language(scope=scope, canon=c, **kw)
+
+
+def gen_canon(rng, spec: LangSpec, max_items=4, depth=2):
+    """canon specification: root and non-root base types and nested compound types (no functions)"""
+    items = []
+    bases = spec.bases()
+    for _ in range(rng.randint(1, max_items)):
+        if rng.random() < 0.5 and bases:
+            items.append((rng.choice(bases), ()))
+        else:
+            t = gen_ty(rng, spec, rng.randint(1, depth), p_special=0.0, allow_fun=False)
+            items.append(t)
+    return items
+
+
+def py_to_data(t, ops):
+    """concrete transforge type -> data tuple"""
+    t = t.follow()
+    o = next(i for i, op in enumerate(ops) if op is t.operator)
+    return (o, tuple(py_to_data(p, ops) for p in t.params))
+
+
+def str_sexp(s: str) -> str:
+    return "(s" + "".join(f" {ord(c)}" for c in s) + ")"
